@@ -868,6 +868,65 @@ func runC16(c *Ctx, r *Rec) {
 	} else {
 		r.undecided("D2-merge", "collection.catalogClass.Merge", "", "not found")
 	}
+	// the result starts with the first operand on every path: a returned collection that is
+	// created as a copy of another parameter lists that parameter's items first
+	for _, ent := range []struct {
+		fd   *ast.FuncDecl
+		rule string
+	}{{c.methodsOf(lcls)["Concatenate"], "D1-starts-with-first"}, {cms["Merge"], "D2-starts-with-first"}} {
+		fd := ent.fd
+		if fd == nil || fd.Body == nil {
+			continue
+		}
+		params := paramObjs(info, fd)
+		if len(params) != 2 {
+			continue
+		}
+		construct := c.fdName(fd)
+		bad := ""
+		seenCopy := false
+		inspectNoLit(fd.Body, func(x ast.Node) bool {
+			rs, ok := x.(*ast.ReturnStmt)
+			if !ok || len(rs.Results) != 1 {
+				return true
+			}
+			src := ast.Unparen(rs.Results[0])
+			if id, ok := src.(*ast.Ident); ok {
+				if init := reachingDef(newFG(info, fd.Body), info, fd, id, rs); init != nil {
+					src = ast.Unparen(init)
+				}
+			}
+			if _, mname, call, ok := methodCall(src); ok && (mname == "MakeFromSequence" || mname == "MakeFromArray") && len(call.Args) == 1 {
+				arg := ast.Unparen(call.Args[0])
+				if rx, mn, _, ok := methodCall(arg); ok && mn == "AsArray" {
+					arg = ast.Unparen(rx)
+				}
+				if isObj(info, arg, params[0]) {
+					seenCopy = true
+				} else if isObj(info, arg, params[1]) {
+					bad = fmt.Sprintf("the collection returned at %s is created as a copy of the second operand %s: its items come first in the result, before those of %s", c.pos(rs.Pos()), params[1].Name(), params[0].Name())
+				}
+			}
+			return true
+		})
+		inserts := false
+		inspectNoLit(fd.Body, func(x ast.Node) bool {
+			if _, mname, _, ok := methodCall(x); ok && strings.HasPrefix(mname, "Insert") {
+				inserts = true
+			}
+			return true
+		})
+		switch {
+		case bad != "" && inserts:
+			r.skip(ent.rule, construct, c.pos(fd.Pos()), "a copy of the second operand is returned but items are also inserted in front of existing ones: the resulting order is not decided by this rule")
+		case bad != "":
+			r.fail(ent.rule, construct, c.pos(fd.Pos()), bad)
+		case seenCopy:
+			r.ok(ent.rule, construct, c.pos(fd.Pos()), "every returned collection that starts as a copy starts as a copy of the first operand")
+		default:
+			r.skip(ent.rule, construct, c.pos(fd.Pos()), "no returned collection is created as a copy of an operand")
+		}
+	}
 	// ---- D3 Extract
 	if fd := cms["Extract"]; fd != nil {
 		construct := c.fdName(fd)
